@@ -62,6 +62,21 @@ fn bit_vectors(ctx: &mut Ctx) {
     for (name, bits) in bitvecs() {
         let n = bits.len();
         let mk = || -> BitVec { bits.iter().copied().collect() };
+        // iterator adaptors that an implementation may override (nth, and through it skip and step_by), with
+        // arguments landing at and beyond the end
+        for k in ood(n).into_iter().chain([n.saturating_sub(1), 1, 64, 1000]) {
+            let ones = bits.iter().filter(|&&b| b).count();
+            probe(ctx, "BitVec::iter().nth", || format!("{name} k={k}"), || (mk().iter().nth(k), (&mk()).into_iter().nth(k)));
+            probe(ctx, "BitVec::iter().skip", || format!("{name} k={k}"), || mk().iter().skip(k).take(3).count());
+            probe(ctx, "BitVec::iter().step_by", || format!("{name} step={k}"), || mk().iter().step_by(k.max(1)).take(n + 2).count());
+            probe(ctx, "BitVec::iter_ones().nth", || format!("{name} k={k}"), || (mk().iter_ones().nth(k.min(ones + 70)), mk().iter_zeros().nth(k.min(n + 70))));
+            probe(ctx, "BitVec::iter() nth after the end", || format!("{name} k={k}"), || {
+                let b = mk();
+                let mut it = b.iter();
+                let _ = it.nth(n);
+                (it.nth(k.min(1 << 20)), it.next())
+            });
+        }
         for i in ood(n) {
             probe(ctx, "BitVec::get", || format!("{name} index={i}"), || mk().get(i));
             probe(ctx, "BitVec::index", || format!("{name} index={i}"), || mk()[i]);
